@@ -24,7 +24,7 @@ func c07Patch(g *GcsEmu, conds cloudstorage.Conditions, ctype string) int {
 func H_C07_writers() {
 	g := vNewEmu()
 	n := vBound("writers", 2, 3)
-	kind := vChoice("kind", 0, 7)
+	kind := vChoice("kind", 0, 8)
 	var base *storage.Object
 	if kind == 5 {
 		n = 2
@@ -37,7 +37,16 @@ func H_C07_writers() {
 		n = 2
 		vPut(g, "b", "src", []byte("S"))
 	}
-	if kind != 1 && kind != 5 && kind != 7 {
+	if kind == 8 {
+		n = 2
+		// stored as a request body read with io.ReadAll would be: with spare capacity
+		buf := make([]byte, 1, 9)
+		buf[0] = 'S'
+		vPut(g, "b", "src", buf)
+		vPut(g, "b", "t0", []byte("A"))
+		vPut(g, "b", "t1", []byte("B"))
+	}
+	if kind != 1 && kind != 5 && kind != 7 && kind != 8 {
 		base = vPut(g, "b", "o", []byte("base"))
 	}
 	codes := make([]int, n)
@@ -57,6 +66,17 @@ func H_C07_writers() {
 				codes[i] = c07Patch(g, cloudstorage.Conditions{MetagenerationMatch: base.Metageneration}, "text/"+string(content))
 			case 3: // unconditional patches: no update is lost
 				codes[i] = c07Patch(g, emptyConds, "text/"+string(content))
+			case 8: // two composes onto one destination, both conditioned on non-existence, sharing their first source
+				w := vNewRecorder()
+				tail := []string{"t0", "t1"}[i]
+				r := &http.Request{Body: &vBody{decode: func(v interface{}) error {
+					req := v.(*storage.ComposeRequest)
+					req.Destination = &storage.Object{}
+					req.SourceObjects = []*storage.ComposeRequestSourceObjects{{Name: "src"}, {Name: tail}}
+					return nil
+				}}}
+				g.handleGcsCompose(vCtx(), dontNeedUrls, w, r, "b", "o/compose", cloudstorage.Conditions{DoesNotExist: true})
+				codes[i] = w.code
 			case 7: // an upload conditioned on non-existence racing a copy onto the same name
 				if i == 0 {
 					_, errs[i] = g.finishUpload(vCtx(), dontNeedUrls, &storage.Object{Bucket: "b", Name: "o"}, content, "b",
@@ -137,6 +157,18 @@ func H_C07_writers() {
 			vAssert(codes[i] == http.StatusOK, "patch-ok")
 		}
 		vAssert(st.metagen == base.Metageneration+int64(n), "no-lost-update: metageneration raised once per patch")
+	case 8:
+		wins := 0
+		for i := 0; i < n; i++ {
+			if codes[i] == http.StatusOK {
+				wins++
+				vAssert(st.exists && string(st.content) == "S"+string(byte('A'+i)), "winning-compose's-content-is-stored")
+			} else {
+				vAssert(codes[i] == http.StatusPreconditionFailed, "losing-compose-412")
+			}
+		}
+		vAssert(wins == 1, "exactly-one-conditional-compose-succeeds")
+		vAssert(string(vSnap(g, "b", "src").content) == "S", "compose-sources-untouched")
 	case 7:
 		vAssert(codes[1] == http.StatusOK, "copy-ok")
 		if errs[0] != nil {
@@ -181,7 +213,9 @@ func H_C07_writers() {
 		if rmeta.Generation == 0 {
 			vAssert(false, "reader-generation")
 		}
-		if kind == 5 || kind == 7 {
+		if kind == 8 {
+			vAssert(len(rdata) == 2 && rdata[0] == 'S', "reader-sees-content-of-its-generation")
+		} else if kind == 5 || kind == 7 {
 			vAssert(len(rdata) == 1, "reader-sees-content-of-its-generation")
 		} else if base != nil && rmeta.Generation == base.Generation {
 			vAssert(string(rdata) == "base", "reader-sees-content-of-its-generation")
